@@ -248,7 +248,7 @@ def run(tier, seed):
     out = vlib.replay(ENGINE, scen, timeout=300, rlimit_as=RLIMIT_AS,
                       env={"HOSTILE_CALL_TIMEOUT_S": str(CALL_TIMEOUT_S)})
     by_sig, failed_inputs = absorb(v, out, scen)
-    if out.total != n_inputs:
+    if out.total != n_inputs and not out.truncated:
         raise vlib.Inconclusive("replayed %d of %d inputs" % (out.total, n_inputs))
     # class labels of the inputs on which every entry point behaved: "<class>|<calls>"
     classes, calls_ok = {}, 0
